@@ -120,6 +120,17 @@ CHECKS['C13'] = (
     'contraction, exp/log, repeated multiplication, float ratio tests at an exact 3/2 boundary) is outside the model.',
     BASE_NOTE + 'contiguous orbital momenta; ints.py integrals trusted.', '6/C13')
 
+CHECKS['C14'] = (
+    'Lean 4 theorems over the writer map regenerated from writers/write.py (no comment marker => no header; headed = pre ++ block ++ sep ++ body with the '
+    'psi4 / gaussian94lib cases; the block is the concatenation of marker-prefixed lines; markers contain no line boundary) + differential execution of '
+    'the assembly model against write_formatted_basis_str',
+    'Proof (on the model): no_comment_no_header, headed_is_bare_plus_block, commentBlock_is_prefixed_lines, markers_have_no_break, assembly_as_modelled '
+    '(the special-cased formats and the prefixing expression are read from the source). Tie: model text = real text byte for byte for every format x basis x '
+    'description variant (own splitlines model incl. all Unicode line boundaries). On the real texts: added lines are marker-initial and before the data, '
+    'name/role/version/library version present, reading headed = reading bare for the readable formats, get_basis(header=True/False) agrees. '
+    'Partial: textwrap is a parameter; readBack_headed for the three modelled readers is checked, not proved.',
+    BASE_NOTE + 'textwrap, str.splitlines of CPython.', '6/C14')
+
 NOT_YET = {}
 
 
